@@ -146,6 +146,55 @@ pub open spec fn decode_plane(input: Seq<u8>, width: nat, height: nat) -> Option
     planes_from(input, width, height, None, Seq::empty(), 0)
 }
 
+// ----- well-formedness of the decoders: a decoded plane has `height` scanlines of `width` values and consumes at most the input
+pub proof fn lemma_scan_shape(s: Seq<u8>, width: nat, prev: Option<Seq<u8>>, raw: nat, run: nat, last: int, acc: Seq<u8>, n: nat)
+    ensures scan(s, width, prev, raw, run, last, acc, n) is Some ==> ({
+        let r = scan(s, width, prev, raw, run, last, acc, n)->Some_0;
+        r.0.len() == width && n <= r.1 <= n + s.len() })
+    decreases s.len(), raw + run
+{
+    if raw > 0 {
+        if !(acc.len() >= width || s.len() == 0) {
+            let v = if prev is None { s[0] as int } else { delta_of(s[0]) };
+            lemma_scan_shape(s.skip(1), width, prev, (raw - 1) as nat, run, v, acc.push(plane_out(prev, acc.len() as int, v)), n + 1);
+        }
+    } else if run > 0 {
+        if !(acc.len() >= width) {
+            lemma_scan_shape(s, width, prev, 0, (run - 1) as nat, last, acc.push(plane_out(prev, acc.len() as int, last)), n);
+        }
+    } else if acc.len() == width {
+    } else if s.len() == 0 {
+    } else {
+        lemma_scan_shape(s.skip(1), width, prev, seg_raw(s[0]), seg_run(s[0]), last, acc, n + 1);
+    }
+}
+pub proof fn lemma_planes_shape(s: Seq<u8>, width: nat, rows: nat, prev: Option<Seq<u8>>, lines: Seq<Seq<u8>>, n: nat)
+    requires forall|i: int| 0 <= i < lines.len() ==> (#[trigger] lines[i]).len() == width
+    ensures planes_from(s, width, rows, prev, lines, n) is Some ==> ({
+        let r = planes_from(s, width, rows, prev, lines, n)->Some_0;
+        &&& r.0.len() == lines.len() + rows
+        &&& (forall|i: int| 0 <= i < r.0.len() ==> (#[trigger] r.0[i]).len() == width)
+        &&& n <= r.1 <= n + s.len() })
+    decreases rows
+{
+    if rows > 0 {
+        lemma_scan_shape(s, width, prev, 0, 0, 0, Seq::empty(), 0);
+        match decode_scanline(s, width, prev) {
+            None => {},
+            Some((line, k)) => { lemma_planes_shape(s.skip(k as int), width, (rows - 1) as nat, Some(line), lines.push(line), n + k); },
+        }
+    }
+}
+pub proof fn lemma_decode_plane_shape(input: Seq<u8>, width: nat, height: nat)
+    ensures decode_plane(input, width, height) is Some ==> ({
+        let r = decode_plane(input, width, height)->Some_0;
+        &&& r.0.len() == height
+        &&& (forall|i: int| 0 <= i < height ==> (#[trigger] r.0[i]).len() == width)
+        &&& r.1 <= input.len() })
+{
+    lemma_planes_shape(input, width, height, None, Seq::empty(), 0);
+}
+
 // ----- the control byte as the code computes it
 pub proof fn lemma_ctrl(code: u8)
     ensures ({
@@ -312,6 +361,9 @@ PP_OVERRUN = "proof { assert(decode_scanline(ls, width as nat, prev) is None); a
 PP_RUN = """proof { assert(scan(input.rest(), width as nat, prev, 0, replen as nat, last, acc, cons)
         == scan(input.rest(), width as nat, prev, 0, (replen - 1) as nat, last, acc.push(plane_out(prev, acc.len() as int, last)), cons));
     acc = acc.push(plane_out(prev, acc.len() as int, last)); }"""
+PP_OVERRUN_AT = r"return Err\(Error::RdpError\(RdpError::new\(RdpErrorKind::InvalidData, \"Run out of scanline\"\)\)\)"
+# completeness, as far as the generic reader allows: the explicit rejections happen only for malformed encodings
+PP_CLAIMS = [(PP_OVERRUN_AT, n, PP_OVERRUN, "before", "C09", "reject-only-malformed-%d" % n) for n in (1, 2, 3, 4)]
 PP_HINTS = [
     (r"let mut out = ", 1, "proof { lemma_rows(width as int, height as int, indexh as int); }", "before"),
     (r"indexw = 0;", 1, """let ghost prev: Option<Seq<u8>> = if indexh == 0 { None } else { Some(lines[indexh - 1]) };
@@ -328,10 +380,6 @@ proof { assert(ls.skip(0) =~= ls);
     (r"code = input\.read_u8\(\)\?;", 2, "let ghost rl = input.rest().len(); let ghost s0 = input.rest();", "before"),
     (r"code = input\.read_u8\(\)\?;", 1, PP_CTRL),
     (r"code = input\.read_u8\(\)\?;", 2, PP_CTRL),
-    (r"return Err\(Error::RdpError\(RdpError::new\(RdpErrorKind::InvalidData, \"Run out of scanline\"\)\)\)", 1, PP_OVERRUN, "before"),
-    (r"return Err\(Error::RdpError\(RdpError::new\(RdpErrorKind::InvalidData, \"Run out of scanline\"\)\)\)", 2, PP_OVERRUN, "before"),
-    (r"return Err\(Error::RdpError\(RdpError::new\(RdpErrorKind::InvalidData, \"Run out of scanline\"\)\)\)", 3, PP_OVERRUN, "before"),
-    (r"return Err\(Error::RdpError\(RdpError::new\(RdpErrorKind::InvalidData, \"Run out of scanline\"\)\)\)", 4, PP_OVERRUN, "before"),
     (r"color = input\.read_u8\(\)\? as i8;", 1, "let ghost s0 = input.rest();", "before"),
     (r"color = input\.read_u8\(\)\? as i8;", 1, """proof { lemma_i8u8(s0[0]); cons = cons + 1; assert(input.rest() =~= ls.skip(cons as int));
     assert(scan(s0, width as nat, prev, collen as nat, replen as nat, last, acc, (cons - 1) as nat)
@@ -365,6 +413,8 @@ proof { assert(ls.skip(0) =~= ls);
 }""", "before"),
 ]
 
+PLANE_CALL = r"process_plane\(&mut input_cursor, width, height, &mut output\[\d\.\.\]\)"
+
 UNIT = Unit("codec", ["base.rs"], [
     codec_specs,
     planar_specs,
@@ -377,39 +427,39 @@ UNIT = Unit("codec", ["base.rs"], [
                 ("C09", "plane-consumed-bound", "r is Ok ==> decode_plane(old(input).rest(), width as nat, height as nat)->Some_0.1 <= old(input).rest().len()"),
                 ("C09", "plane-consumed", "r is Ok ==> final(input).rest() == old(input).rest().skip(decode_plane(old(input).rest(), width as nat, height as nat)->Some_0.1 as int)"),
                 ("C09", "plane-exact", "r is Ok ==> forall|i: int, j: int| 0 <= i < height && 0 <= j < width ==> final(output)@[((height - 1 - i) * width + j) * 4] == #[trigger] decode_plane(old(input).rest(), width as nat, height as nat)->Some_0.0[i][j]")],
-       pre=PP_PRE, loops=PP_LOOPS, hints=PP_HINTS),
+       pre=PP_PRE, loops=PP_LOOPS, hints=PP_HINTS, claims=PP_CLAIMS),
     Fn(RLE, "rle_32_decompress", mod="rle", props=["C08", "C09"],
        ensures=[("C08", "len", "final(output)@.len() == old(output)@.len()"),
                 ("C09", "planar-header", "r is Ok ==> input@.len() >= 1 && input@[0] == 0x10"),
                 ("C09", "planar-exact", "r is Ok && width > 0 && height > 0 ==> planar_image(input@, width as nat, height as nat) is Some && final(output)@.take(width as int * height as int * 4) == planar_image(input@, width as nat, height as nat)->Some_0"),
                 ("C09", "planar-tail", "r is Ok ==> forall|k: int| width as int * height as int * 4 <= k < old(output)@.len() ==> #[trigger] final(output)@[k] == old(output)@[k]")],
        hints=[(r"if \(output\.len\(\) as u128\) <", 1, "proof { assert(0 <= width as int * height as int <= 0xffff_ffff * 0xffff_ffff) by(nonlinear_arith) requires 0 <= width as int <= 0xffff_ffff, 0 <= height as int <= 0xffff_ffff; }", "before"),
-              (r"process_plane\(&mut input_cursor, width, height, &mut output\[3\.\.\]\)", 1, """proof { assert(width as int * height as int >= 1) by(nonlinear_arith) requires width as int >= 1, height as int >= 1; }
+              (PLANE_CALL, 1, """proof { assert(width as int * height as int >= 1) by(nonlinear_arith) requires width as int >= 1, height as int >= 1; }
 let ghost w = width as nat; let ghost h = height as nat; let ghost n4 = width as int * height as int * 4;
 let ghost s0 = input_cursor.rest(); let ghost o0 = output@;
 proof { assert(s0 =~= input@.skip(1)); }""", "before"),
-              (r"process_plane\(&mut input_cursor, width, height, &mut output\[3\.\.\]\)", 1, """let ghost s1 = input_cursor.rest(); let ghost o1 = output@;
+              (PLANE_CALL, 1, """let ghost s1 = input_cursor.rest(); let ghost o1 = output@;
 proof { let sub0 = o0.subrange(3, o0.len() as int); let sub1 = o1.subrange(3, o1.len() as int); let pl = decode_plane(s0, w, h)->Some_0.0;
     assert(forall|k: int| 0 <= k < sub0.len() && k % 4 != 0 ==> #[trigger] sub1[k] == sub0[k]);
     assert(forall|k: int| w * h * 4 <= k < sub0.len() ==> #[trigger] sub1[k] == sub0[k]);
     assert(forall|k: int| 0 <= k < 3 ==> #[trigger] o1[k] == o0[k]);
     assert(forall|i: int, j: int| 0 <= i < h && 0 <= j < w ==> sub1[((h - 1 - i) * w + j) * 4] == #[trigger] pl[i][j]);
     lemma_plane_written(o0, o1, 3, pl, w as int, h as int); }"""),
-              (r"process_plane\(&mut input_cursor, width, height, &mut output\[2\.\.\]\)", 1, """let ghost s2 = input_cursor.rest(); let ghost o2 = output@;
+              (PLANE_CALL, 2, """let ghost s2 = input_cursor.rest(); let ghost o2 = output@;
 proof { let sub0 = o1.subrange(2, o1.len() as int); let sub1 = o2.subrange(2, o2.len() as int); let pl = decode_plane(s1, w, h)->Some_0.0;
     assert(forall|k: int| 0 <= k < sub0.len() && k % 4 != 0 ==> #[trigger] sub1[k] == sub0[k]);
     assert(forall|k: int| w * h * 4 <= k < sub0.len() ==> #[trigger] sub1[k] == sub0[k]);
     assert(forall|k: int| 0 <= k < 2 ==> #[trigger] o2[k] == o1[k]);
     assert(forall|i: int, j: int| 0 <= i < h && 0 <= j < w ==> sub1[((h - 1 - i) * w + j) * 4] == #[trigger] pl[i][j]);
     lemma_plane_written(o1, o2, 2, pl, w as int, h as int); }"""),
-              (r"process_plane\(&mut input_cursor, width, height, &mut output\[1\.\.\]\)", 1, """let ghost s3 = input_cursor.rest(); let ghost o3 = output@;
+              (PLANE_CALL, 3, """let ghost s3 = input_cursor.rest(); let ghost o3 = output@;
 proof { let sub0 = o2.subrange(1, o2.len() as int); let sub1 = o3.subrange(1, o3.len() as int); let pl = decode_plane(s2, w, h)->Some_0.0;
     assert(forall|k: int| 0 <= k < sub0.len() && k % 4 != 0 ==> #[trigger] sub1[k] == sub0[k]);
     assert(forall|k: int| w * h * 4 <= k < sub0.len() ==> #[trigger] sub1[k] == sub0[k]);
     assert(forall|k: int| 0 <= k < 1 ==> #[trigger] o3[k] == o2[k]);
     assert(forall|i: int, j: int| 0 <= i < h && 0 <= j < w ==> sub1[((h - 1 - i) * w + j) * 4] == #[trigger] pl[i][j]);
     lemma_plane_written(o2, o3, 1, pl, w as int, h as int); }"""),
-              (r"process_plane\(&mut input_cursor, width, height, &mut output\[0\.\.\]\)", 1, """let ghost o4 = output@;
+              (PLANE_CALL, 4, """let ghost o4 = output@;
 proof { let sub0 = o3.subrange(0, o3.len() as int); let sub1 = o4.subrange(0, o4.len() as int); let pl = decode_plane(s3, w, h)->Some_0.0;
     assert(forall|k: int| 0 <= k < sub0.len() && k % 4 != 0 ==> #[trigger] sub1[k] == sub0[k]);
     assert(forall|k: int| w * h * 4 <= k < sub0.len() ==> #[trigger] sub1[k] == sub0[k]);
